@@ -6,7 +6,8 @@ from . import inventory as I
 from . import fanout as F
 from .facts import Callee, AnchorError
 from .paths import enumerate_paths
-from .shapes import coverage, root, Src, SELF, traversals
+from .shapes import root, traversals
+from .semcov import coverage, Src, SELF
 
 GUARDS = {
     A.FETCH: ("inner", "atomic_refcell::AtomicRef<"),
